@@ -230,9 +230,25 @@ def run(chk, scratch):
         # final state of the shared file
         cfgp = os.path.join(home, ".config", "IsoQuant", "db_config.json")
         try:
-            json.load(open(cfgp))
+            entries = json.load(open(cfgp))
         except Exception as e:
+            entries = {}
             chk.violation("cache-file-left-invalid", "%s: db_config.json is not valid JSON after the round: %r" % (desc, e), wit)
+        # every record the round leaves behind names a database converted from THAT annotation (a later run would be handed it)
+        for gtf_path, rec in (entries.items() if isinstance(entries, dict) else ()):
+            m_ = re.search(r"/in(\d+)/a\.gtf$", gtf_path)
+            dbp = rec.get("genedb") if isinstance(rec, dict) else None
+            if not m_ or not dbp or not os.path.exists(dbp):
+                continue
+            try:
+                import gffutils
+                ids = set(f.id for f in gffutils.FeatureDB(dbp).features_of_type("transcript"))
+            except Exception:
+                continue
+            chk.count("cache_records_verified")
+            if ids != tsets[int(m_.group(1))]:
+                chk.violation("cache-record-names-database-of-another-annotation", "%s: db_config.json files %s under %s, whose transcripts differ from that annotation" %
+                              (desc, dbp, gtf_path), wit)
         chk.sample({"round": desc, "rmw_windows": n_win, "overlapping": n_over, "cache_events": len(evs), "parse_errors": len(bad_loads)}, limit=6)
         shutil.rmtree(rdir, ignore_errors=True)
     # a cached database that is REWRITTEN by a later run of another annotation with the same file name into the same output folder:
